@@ -690,4 +690,52 @@ def reject_not_repair(repo: Repo) -> RuleRun:
 
 reject_not_repair.rule_id = "C03.REJECT-NOT-REPAIR"
 
-RULES = [registry_agreement, closure, invert_complete, validation_siblings, dimensions, bracket_siblings, unit_ratio_tests, copy_well_posed, no_stale_lazy_cache, reject_not_repair]
+def no_memo(repo: Repo) -> RuleRun:
+    """'the reversed grading is the mirror image of the grading as it is NOW': nothing in the grading package memoises a value computed from state that is changed later (a grading built step by step)."""
+    from ..memo import memo_rule
+
+    return memo_rule(repo, PROP, "C03.NO-MEMO", ("grading.",))
+
+
+no_memo.rule_id = "C03.NO-MEMO"
+
+
+def solver_tolerance(repo: Repo) -> RuleRun:
+    """'the realised sizes equal the requested ones': the closed-form relations are exact, the two that need a root finder
+    inherit its tolerance. scipy's defaults (xtol 2e-12, rtol 8.9e-16) are far below anything that matters; the library's
+    general tolerance (1e-7) as xtol is not - an absolute error of 1e-7 in a cell-to-cell ratio is amplified by the exponent
+    count-1 and is large relative to ratios close to 1."""
+    from .. import tolerance
+
+    r = RuleRun(PROP, "C03.SOLVER-TOLERANCE", floor=2, what="root finders of the grading relations run with scipy's default tolerances or tighter (no xtol / rtol looser than 1e-10)")
+    mod = repo.module("grading.relations")
+    k = 0
+    for fn in sorted(repo.all_functions(), key=lambda f: f.qualname):
+        if fn.module is not mod:
+            continue
+        for c in ast.walk(fn.node):
+            if isinstance(c, ast.Call) and (attr_chain(c.func) or "").split(".")[-1] in ("brentq", "brenth", "bisect", "newton", "fsolve", "root_scalar", "ridder", "toms748"):
+                loose = []
+                for kw in c.keywords:
+                    if kw.arg in ("xtol", "rtol", "tol", "atol"):
+                        v = tolerance.fold(repo, fn.module, kw.value)
+                        if v is None or v > 1e-10:
+                            loose.append(f"{kw.arg}={ast.unparse(kw.value)}" + (f" (= {v})" if v is not None else ""))
+                r.check(not loose, fn, f"'{ast.unparse(c)[:50]}': default tolerances", f"{fn.qualname}: the root finder is called with {', '.join(loose)}: the cell-to-cell ratio it returns is only that accurate, and the error is amplified by the exponent count-1 - a requested size comes back off by 1e-5 .. 1e-4 relative", c, key=f"solver#{k}")
+                k += 1
+    r.require(k >= 2, f"only {k} root-finder calls found in grading.relations")
+    return r
+
+
+solver_tolerance.rule_id = "C03.SOLVER-TOLERANCE"
+
+def no_rounding(repo: Repo) -> RuleRun:
+    """'the realised sizes equal the requested ones' for ratios of any magnitude: nothing in the grading package is rounded to decimals."""
+    from ..tolerance import no_rounding_rule
+
+    return no_rounding_rule(repo, PROP, "C03.NO-ROUNDING", ('grading.',))
+
+
+no_rounding.rule_id = "C03.NO-ROUNDING"
+
+RULES = [registry_agreement, closure, invert_complete, validation_siblings, dimensions, bracket_siblings, unit_ratio_tests, copy_well_posed, no_stale_lazy_cache, reject_not_repair, no_memo, solver_tolerance, no_rounding]
